@@ -484,7 +484,13 @@ def tie_geo(ctx, kind, v, seed, loss, ps, fs, rec):
         sent = [(c, facs) for c, facs in rec if all(np.array_equal(a, b) for a, b in zip(facs, got))][:1]
         ctx.count("geo-argmin-ambiguous")
         if not sent:
-            raise RuntimeError("harness: returned factors do not match any captured Tucker result")
+            # the factors returned by the real code are none of the captured Tucker results: an observable
+            # difference (e.g. factors conjugated / reordered), reported as a failing input, not a harness error
+            ctx.fail(f"geo.factors-not-a-tucker-result:{kind}:n={int(np.log2(len(v)))}",
+                     "returned one-qubit factors equal none of the factor sets tensorly returned",
+                     {"call": "geometric_entanglement", "kind": kind, "seed": seed,
+                      "re": [float(x) for x in np.real(v)], "im": [float(x) for x in np.imag(v)]})
+            return
     else:
         ctx.count("geo-argmin-unique")
     op = {"op": "geo", "results": [
@@ -583,6 +589,9 @@ def compare(op, impl, model):
 # ------------------------------------------------------------------------------------------------
 
 TOL = 1e-9
+# state kinds of boundary_states() whose two measures are known exactly (products and GHZ have their own clauses)
+EXACT_MW = {"bell": 1.0, "bell-x-bell": 1.0}
+EXACT_GEO = {"bell": 0.5, "bell-x-bell": 0.75}
 
 
 def rep_vec(v, **kw):
@@ -666,6 +675,11 @@ def oracle_mw_state(ctx, n, kind, v, g=None, light=False):
             ctx.fail(f"mw.ghz:n={n}", f"GHZ_{n} has value {val!r}, expected 1", dict(rp, check="value"))
         else:
             ctx.ok(base + ":ghz")
+    if kind in EXACT_MW:
+        if abs(val - EXACT_MW[kind]) > TOL:
+            ctx.fail(f"mw.exact:{kind}:n={n}:{h}", f"meyer_wallach = {val!r}, exact value {EXACT_MW[kind]}", dict(rp, check="value"))
+        else:
+            ctx.ok(base + ":exact")
     if kind == "w" and n >= 2:
         if abs(val - 4 * (n - 1) / n ** 2) > TOL:
             ctx.fail(f"mw.w:n={n}", f"W_{n} has value {val!r}, expected {4*(n-1)/n**2}", dict(rp, check="value"))
@@ -761,6 +775,8 @@ def oracle_geo_state(ctx, n, kind, v, seed, tie=True):
         checks.append(("product-zero", abs(loss) <= GEO_TOL, f"product state has measure {loss!r}"))
     if kind == "ghz" and n >= 2:
         checks.append(("ghz", abs(loss - 0.5) <= GEO_TOL, f"GHZ_{n}: measure {loss!r}, expected 0.5"))
+    if kind in EXACT_GEO:
+        checks.append(("exact", abs(loss - EXACT_GEO[kind]) <= GEO_TOL, f"{kind}: measure {loss!r}, exact value {EXACT_GEO[kind]}"))
     if kind == "w" and n >= 2:
         want = 1 - ((n - 1) / n) ** (n - 1)
         checks.append(("w", abs(loss - want) <= W_TOL, f"W_{n}: measure {loss!r}, expected {want!r} (tol {W_TOL})"))
@@ -772,9 +788,137 @@ def oracle_geo_state(ctx, n, kind, v, seed, tie=True):
             ctx.fail(f"geo.{name}:{kind}:n={n}:{h}", msg, dict(rp, check=name))
 
 
+BOUNDARIES = {
+    "entanglement.py:30-40 _get_iota: assert selector in [0,1], full_mask >> (qubits - qubit_idx), full_mask << (qubit_idx + 1)":
+        "exhaustive tables qubits = 1..10, qubit_idx = 0 (low mask 0) .. qubits-1 (high mask 0), selectors 0, 1 and rejected 2, 3, 5 "
+        "(tie, re-translated from source) - already complete",
+    "entanglement.py:58-59 range(shape[0]), range(j) of generalized_cross_product":
+        "slices of length 1 (n = 1: empty sum, tie), 2 (n = 2: a single cross term - all four Bell states, |00>, |11>, |++>), 4, 8",
+    "entanglement.py:82-99 num_qb = _to_qubits(len), shape[0] // 2, 4 / num_qb":
+        "n = 1 (tie), 2, 3, 4 boundary states; lengths 1, 3, 5, 6, 7, 12 rejected (tie); int / float / complex dtype arrays",
+    "entanglement.py:99 value range [0, 1]": "exactly 0: |0..0>, |1..1>, |+>^n, generic product with one factor exactly |1> at the first / "
+        "last qubit; exactly 1: Bell Phi+-, Psi+-, GHZ_n with relative phase 1, -1, i, Bell x Bell; just inside: product + 1e-3 GHZ, "
+        "GHZ + 1e-3 product",
+    "entanglement.py:131-133 n_qubits, reshape": "n = 2, 3, 4 boundary states (n = 1 raises in tensorly: outside the quantifier)",
+    "entanglement.py:139-144 range(4) restarts, core.flatten()[0], min(results)":
+        "product states (all four restarts give the same key up to rounding: the dict collapses), GHZ/Bell (degenerate optimum), W",
+    "entanglement.py:146/152 return_product_state and product_state_with_factors":
+        "(False, False), (False, True), (True, False), (True, True) on the same state and seed; list and ndarray input",
+    "entanglement.py:151 product_state / norm": "states with exactly zero amplitudes (basis states, GHZ, W, sparse)",
+    "entanglement.py:243 _to_qubits: n > 0, ceil(log2)": "lengths 0..69, 2^k - 1, 2^k, 2^k + 1 up to 1025 (tie) - already complete",
+}
+
+
+def kron_all(fs):
+    v = np.array([1.0 + 0j])
+    for f in fs:
+        v = np.kron(v, np.asarray(f, dtype=complex))
+    return v
+
+
+def boundary_states(ctx, n):
+    """(name, oracle kind, vector, exact MW or None, exact geometric measure or None); the exact values are enforced by
+    the oracle through the kind (product-* / ghz clauses, EXACT_MW / EXACT_GEO), the two columns here are for the reader"""
+    r = ctx.rng
+    s = 1 / math.sqrt(2)
+    N = 2 ** n
+    e0, e1 = np.array([1, 0], dtype=complex), np.array([0, 1], dtype=complex)
+    out = []
+    out.append(("all factors |0>", "product-all0", kron_all([e0] * n), 0.0, 0.0))
+    out.append(("all factors |1>", "product-all1", kron_all([e1] * n), 0.0, 0.0))
+    out.append(("all factors |+> (all amplitudes equal)", "product-uniform", np.full(N, 1 / math.sqrt(N), dtype=complex), 0.0, 0.0))
+    for where, q in (("first", 0), ("last", n - 1)):
+        _, fs = product_state(ctx, n, "complex")
+        fs[n - 1 - q] = e1 * np.exp(1j * r.uniform(0, 6.28))          # kron order: factor index n-1-q is qubit q
+        out.append((f"generic product with the factor of the {where} qubit exactly |1>", "product-f1-" + where, kron_all(fs), 0.0, 0.0))
+    for nm, ph in (("+", 1), ("-", -1), ("+i", 1j)):
+        g = np.zeros(N, dtype=complex)
+        g[0], g[-1] = s, s * ph
+        out.append((f"GHZ / Bell Phi with relative phase {nm}", "ghz", g, 1.0, 0.5))
+    if n == 2:
+        for nm, ph in (("+", 1), ("-", -1)):
+            out.append((f"Bell Psi{nm}", "bell", np.array([0, s, s * ph, 0], dtype=complex), 1.0, 0.5))
+    if n == 4:
+        bell = np.array([s, 0, 0, s], dtype=complex)
+        sing = np.array([0, s, -s, 0], dtype=complex)
+        out.append(("Bell x Bell (MW = 1, not GHZ)", "bell-x-bell", np.kron(bell, sing), 1.0, 0.75))
+        out.append(("Bell x Bell on qubits (0,2),(1,3)", "bell-x-bell", permute_qubits(np.kron(bell, bell), 4, [0, 2, 1, 3]), 1.0, 0.75))
+    out.append(("W_n", "w", wstate(n), None, None))
+    p, _ = product_state(ctx, n, "complex")
+    v = p + 1e-3 * ghz(n)
+    out.append(("product + 1e-3 GHZ (just above 0)", "near-product", v / np.linalg.norm(v), None, None))
+    v = ghz(n) + 1e-3 * p
+    out.append(("GHZ + 1e-3 product (just below 1)", "near-ghz", v / np.linalg.norm(v), None, None))
+    return out
+
+
+def oracle_geo_options(ctx, n, kind, v, seed):
+    """option pairs of geometric_entanglement on the same state and seed: (False, True) must still be the bare measure
+    (`product_state_with_factors` only matters inside `if return_product_state`)"""
+    E = _E()
+    outs = {}
+    rp = rep_vec(v, kind="geo", seed=seed, state_kind=kind, check="options")
+    try:
+        for flags in ((False, False), (False, True), (True, False), (True, True)):
+            np.random.seed(seed)
+            outs[flags] = _guard(E.geometric_entanglement, np.asarray(v), *flags)
+        np.random.seed(seed)
+        outs["kw"] = _guard(E.geometric_entanglement, list(v), return_product_state=False, product_state_with_factors=True)
+    except RealCodeRaised as e:
+        ctx.fail(f"geo.raises:options:{kind}:n={n}", str(e), rp)
+        return
+    ref = outs[(True, True)]
+    good = (not isinstance(outs[(False, False)], tuple) and not isinstance(outs[(False, True)], tuple)
+            and not isinstance(outs["kw"], tuple)
+            and isinstance(outs[(True, False)], tuple) and len(outs[(True, False)]) == 2
+            and isinstance(ref, tuple) and len(ref) == 3
+            and all(abs(complex(x) - complex(ref[0])) <= 1e-12 for x in
+                    (outs[(False, False)], outs[(False, True)], outs["kw"], outs[(True, False)][0])))
+    ctx.count("boundary:geometric_entanglement option pairs (F,F) (F,T) (T,F) (T,T)")
+    key = f"geo.options:{kind}:n={n}"
+    if good:
+        ctx.ok(key, nontrivial=True)
+    else:
+        ctx.fail(key, "return shapes / values of the four option pairs (same seed): " +
+                 ", ".join(f"{k}: {type(o).__name__}{len(o) if isinstance(o, tuple) else ''}" for k, o in outs.items()), rp)
+
+
+def oracle_mw_dtype(ctx, n):
+    """dtype of the array handed to meyer_wallach_entanglement: int, float, float32"""
+    E = _E()
+    for nm, arr, want in (("int basis", np.eye(1, 2 ** n, 2 ** n - 1, dtype=int)[0], 0.0),
+                          ("float 0.6|0..0> + 0.8|1..1>", np.array([0.6] + [0.0] * (2 ** n - 2) + [0.8]), 0.9216),
+                          ("float32 GHZ", ghz(n).real.astype(np.float32), 1.0)):
+        ctx.count("boundary:meyer_wallach dtype " + nm.split()[0])
+        key = f"mw.dtype:{nm.split()[0]}:n={n}"
+        rp = rep_vec(arr, kind="mw", state_kind="dtype", check="dtype")
+        try:
+            val = _real(_guard(E.meyer_wallach_entanglement, arr), "meyer_wallach_entanglement")
+        except (NonReal, RealCodeRaised) as e:
+            ctx.fail(key, f"{nm}: {e}", rp)
+            continue
+        if abs(val - want) > 1e-6:
+            ctx.fail(key, f"{nm}: value {val!r}, expected {want}", rp)
+        else:
+            ctx.ok(key, nontrivial=True)
+
+
+def boundary_cases(ctx):
+    for n in (2, 3, 4):
+        for name, kind, v, mw, geo in boundary_states(ctx, n):
+            ctx.count(f"boundary:{name}")
+            tie_mwf(ctx, kind, v)
+            oracle_mw_state(ctx, n, kind, v)
+            oracle_geo_state(ctx, n, kind, v, ctx.rng.getrandbits(31), tie=True)
+        for kind, v in (("ghz", ghz(n)), ("haar", haar(ctx, n))):
+            oracle_geo_options(ctx, n, kind, v, ctx.rng.getrandbits(31))
+        oracle_mw_dtype(ctx, n)
+
+
 def run_sizes(ctx, ns_mw, ns_geo, reps, mwq_ns, mwf_ns, qreps=1):
     tie_iota(ctx, 10)
     oracle_iota(ctx, 10)
+    boundary_cases(ctx)
     for n in mwq_ns:
         for _ in range(qreps if n <= 6 else 1):
             for (kind, re, im, den) in rational_vectors(ctx, n):
@@ -856,6 +1000,12 @@ def replay(ctx, payload):
         return
     v = cvec(r["re"], r["im"])
     n = len(v).bit_length() - 1
+    if r.get("check") == "options":
+        oracle_geo_options(ctx, n, r.get("state_kind", "replay"), v, int(r["seed"]))
+        return
+    if r.get("check") == "dtype":
+        oracle_mw_dtype(ctx, n)
+        return
     if r.get("kind") == "geo":
         oracle_geo_state(ctx, n, r.get("state_kind", "replay"), v, int(r["seed"]), tie=False)
     else:
